@@ -27,7 +27,7 @@ def plan(tier, seed):
 
 def thresholds(tier):
   t = {"programs": 250, "cycles_cosimulated": 5000, "driver_sets_analysed": 3000, "corpus_cases_cosimulated": 55,
-       "stdlib_components_cosimulated": 60, "generated_designs_cosimulated": 150, "param_designs_cosimulated": 60, "svsim_lrm_examples_ok": 24, "struct_constants_evaluated_in_text": 40, "hetero_list_designs": 16, "localname_designs_cosimulated": 30, "constant_use_designs_cosimulated": 30, "descending_loop_designs_cosimulated": 30, "descending_loops_with_positive_end_and_step_2plus": 8, "nested_ifc_array_designs_cosimulated": 20,
+       "stdlib_components_cosimulated": 60, "generated_designs_cosimulated": 150, "param_designs_cosimulated": 60, "svsim_lrm_examples_ok": 24, "struct_constants_evaluated_in_text": 40, "hetero_list_designs": 16, "localname_designs_cosimulated": 30, "constant_use_designs_cosimulated": 30, "descending_loop_designs_cosimulated": 30, "descending_loops_with_positive_end_and_step_2plus": 8, "nested_ifc_array_designs_cosimulated": 20, "child_port_list_designs_cosimulated": 20,
        "form:always_ff": 50, "form:for": 5, "form:size cast N'(e)": 20, "form:replication": 50, "form:typedef struct packed": 50,
        "form:module instance": 50, "form:localparam": 1, "form:indexed part select +:": 1, "form:?:": 50}
   if tier == "thorough":
@@ -206,6 +206,7 @@ def run_shard(sh):
   T.feedback_stream(sh, "sv", 4 if sh.tier == "quick" else 40, mech)
   T.consttbl_stream(sh, "sv", 4 if sh.tier == "quick" else 40, mech)
   T.ifcportlist_stream(sh, "sv", 3 if sh.tier == "quick" else 30, mech)
+  T.childportlist_stream(sh, "sv", 3 if sh.tier == "quick" else 30, mech)
   T.wrapstruct_stream(sh, "sv", 3 if sh.tier == "quick" else 30, mech)
   T.constuse_stream(sh, "sv", 4 if sh.tier == "quick" else 40, mech)
   T.localname_stream(sh, "sv", 4 if sh.tier == "quick" else 40, mech)
